@@ -130,4 +130,12 @@ theorem truncR_nonneg (x : Rat) (hx : 0 ≤ x) : 0 ≤ truncR x := by
   simp only [hx, if_true]
   exact Rat.le_floor_iff.mpr (by simpa using hx)
 
+theorem rat_div_pos (a b : Rat) (ha : 0 < a) (hb : 0 < b) : 0 < a / b := by
+  rw [Rat.div_def]; exact Rat.mul_pos ha (Rat.inv_pos.mpr hb)
+
+theorem rat_ceil_pos (x : Rat) (h : 0 < x) : 0 < x.ceil := by
+  have := @Rat.le_ceil x
+  have : (0 : Rat) < (x.ceil : Rat) := by grind
+  exact Rat.intCast_pos.mp this
+
 end NSV
